@@ -98,6 +98,15 @@ def spec(case):
         return [spec_ttm(x, case["U"], case["dim"], case["transpose"])]
     if op == "mask":
         return [xs[0] * xs[1]]
+    if op == "mask_after":         # mask applied to the result of a resizing operation (its index annotation must follow)
+        pre = case["pre"]
+        if pre[0] == "repeat":
+            y = np.tile(xs[0], pre[1])
+        elif pre[0] == "pad":
+            y = np.zeros([xs[0].shape[n] + pre[1][n] for n in range(N)]); y[tuple(slice(0, sz) for sz in xs[0].shape)] = xs[0]
+        else:
+            y = spec_ttm(xs[0], [pre[1]], [pre[2]], False)
+        return [y * xs[1]]
     if op == "reduce":
         acc = xs[0]
         for y in xs[1:]:
@@ -182,6 +191,8 @@ class Prop:
                 kw.pop(key, None)
             c = {"op": op, "ts": ts, "tags": tags}
             c.update(kw)
+            if ts and tags["cls"] != "creation" and rng.random() < 0.15:   # *_like follow the session default by design
+                c["default_dtype"] = tags["default_dtype"] = "float32"
             cases.append(c)
 
         def mode_lattice(Nmax=3):
@@ -273,7 +284,7 @@ class Prop:
         for _ in range(30 * Q):
             N = rng.randint(1, 4)
             extra = [] if rng.random() < 0.7 or N == 4 else [rng.randint(1, 3)]
-            mk("repeat", [rt(shp(N))], rep=[rng.randint(1, 3) for _ in range(N)] + extra,
+            mk("repeat", [rt(shp(N))], as_list=rng.random() < 0.3, rep=[rng.randint(1, 3) for _ in range(N)] + extra,
                cls="trailing-new-modes" if extra else "plain")
 
         # ---- pad
@@ -373,6 +384,19 @@ class Prop:
         for _ in range(30 * Q):
             N = rng.randint(3, 4); shape = shp(N)
             mk("mask", [rt(shape), rt(shape, lo=0, hi=1, maxr=2)])
+
+        for _ in range(40 * Q):       # masks of resized tensors
+            N = rng.randint(1, 3); shape = shp(N); t0 = rt(shape)
+            kind = rng.choice(["repeat", "pad", "ttm"])
+            if kind == "repeat":
+                reps = [rng.randint(1, 3) for _ in range(N)]; pre = ["repeat", reps]; new = [a * b for a, b in zip(shape, reps)]
+            elif kind == "pad":
+                ext = [rng.randint(0, 2) for _ in range(N)]; pre = ["pad", ext]; new = [a + b for a, b in zip(shape, ext)]
+            else:
+                d = rng.randrange(N); rows = rng.randint(1, 4)
+                pre = ["ttm", [[rng.randint(-2, 2) for _ in range(shape[d])] for _ in range(rows)], d]
+                new = list(shape); new[d] = rows
+            mk("mask_after", [t0, rt(new, lo=0, hi=1, maxr=2)], pre=pre, prekind=kind)
 
         # ---- reduce
         for _ in range(50 * Q):
@@ -503,7 +527,7 @@ class Prop:
         if op == "cumsum":
             return one(tn.cumsum(t) if case["dim"] is None else tn.cumsum(t, case["dim"]))
         if op == "repeat":
-            return one(t.repeat(*case["rep"]))
+            return one(t.repeat(list(case["rep"])) if case.get("as_list") else t.repeat(*case["rep"]))
         if op == "pad":
             kw = {} if case["dim"] is None else {"dim": case["dim"]}
             if case["fill"] != 0 or case.get("explicit_fill"):
@@ -518,6 +542,15 @@ class Prop:
             return one(tn.ttm(t, U, **kw))
         if op == "mask":
             return one(tn.mask(ts[0], ts[1]))
+        if op == "mask_after":
+            pre = case["pre"]
+            if pre[0] == "repeat":
+                y = t.repeat(*pre[1])
+            elif pre[0] == "pad":
+                y = tn.pad(t, [t.shape[n] + pre[1][n] for n in range(t.dim())])
+            else:
+                y = tn.ttm(t, torch.tensor(pre[1], dtype=torch.float64), dim=pre[2])
+            return one(tn.mask(y, ts[1]))
         if op == "reduce":
             fn = {"add": operator.add, "mul": operator.mul, "cat": tn.cat}[case["fn"]]
             kw = {"dim": case["dim"]} if case["fn"] == "cat" else {}
@@ -567,12 +600,17 @@ class Prop:
         raise ValueError(op)
 
     def run(self, case):
+        old = torch.get_default_dtype()
         try:
+            # the operands are float64 whatever the session default is: the result must not depend on the default
+            torch.set_default_dtype(torch.float32 if case.get("default_dtype") == "float32" else torch.float64)
             out = self._run(case)
             out["ok"] = True
             return out
         except Exception as e:
             return {"ok": False, "err": type(e).__name__, "msg": str(e)[:200]}
+        finally:
+            torch.set_default_dtype(old)
 
     # ------------------------------------------------------------------ specification side
     def expected(self, case):
